@@ -24,15 +24,23 @@ Record lim := mkLim { lN : Z; lclosed : bool; lsrc : reader }.
 Definition lim_new (n : Z) (s : list rd) : lim :=
   {| lN := n; lclosed := false; lsrc := {| script := s; closes := 0 |} |}.
 
+Definition max_int64 : Z := 9223372036854775807.
+
 (* func (l *limitReadCloser) Read(p []byte).
    Original: [if err == nil { err = ErrStreamTooLarge }]; Fixed: the error is always
-   ErrStreamTooLarge once the limit is exceeded. *)
+   ErrStreamTooLarge once the limit is exceeded.
+   Original: [if int64(len(p)) > (l.N + 1) { p = p[0:(l.N + 1)] }] in int64 arithmetic: for
+   l.N = MaxInt64 the sum wraps to MinInt64, the test holds for every p and the slice
+   expression panics (slice bounds out of range); Fixed: [int64(len(p))-1 > l.N], which cannot
+   overflow and is the comparison below over Z. *)
 Definition limit_read (v : variant) (want : nat) (l : lim) : list N * err * lim :=
   if (lN l <? 0)%Z then ([], ETooLarge, l)
   else match want with
   | O => ([], ENil, l)
   | _ =>
     if lclosed l then ([], EEOF, l)
+    else if (match v with Original => (lN l =? max_int64)%Z | Fixed => false end)
+    then ([], EPanic, l)
     else
       let want' := if (Z.of_nat want >? lN l + 1)%Z then Z.to_nat (lN l + 1) else want in
       let '(bs, e, src') := read want' (lsrc l) in
